@@ -54,9 +54,12 @@ def main():
     tier = sys.argv[sys.argv.index("--tier") + 1] if "--tier" in sys.argv else "quick"
     also = sys.argv[sys.argv.index("--also") + 1].split(",") if "--also" in sys.argv else []
     tag = sys.argv[sys.argv.index("--tag") + 1] if "--tag" in sys.argv else ""
+    only = sys.argv[sys.argv.index("--only") + 1].split(",") if "--only" in sys.argv else None
     assert sh("git -C /repo status --porcelain").stdout.strip() == "", "/repo is not clean"
     for diff in sorted(glob.glob(os.path.join(d, "m*.diff"))):
         k = os.path.basename(diff)[:-5]
+        if only and k not in only:
+            continue
         meta = {}
         mj = os.path.join(d, k + ".json")
         if os.path.exists(mj):
